@@ -298,6 +298,13 @@ def classify_real(tag, val):
     return (tag, -1, "", "-", "")
 
 
+ADDR = re.compile(r"0x[0-9a-f]+")
+
+
+def same_up_to_address(a, b):
+    return a != b and ADDR.sub("0x", str(a)) == ADDR.sub("0x", str(b))
+
+
 SAFE_EVAL = re.compile(r"\.[A-Za-z]|[∇∂]|\d{4,}")
 
 
@@ -431,7 +438,7 @@ def run_case0(text, premod, want_eval, mrep=None):
             d1 = (val[0], fulldump(val[1]))
             d2 = (val2[0], fulldump(val2[1]))
             if d1 != d2:
-                out["problems"].append(("repeat", f"{d1} != {d2}"))
+                out["problems"].append(("module-object-address" if same_up_to_address(d1, d2) else "repeat", f"{d1} != {d2}"))
         elif tag != "deep" and tag2 != "deep" and (tag, type(val).__name__ if tag == "err" else "") != (tag2, type(val2).__name__ if tag2 == "err" else ""):
             out["problems"].append(("repeat", f"{tag}:{val!r} then {tag2}:{val2!r}"))
     except RecursionError:
@@ -441,8 +448,10 @@ def run_case0(text, premod, want_eval, mrep=None):
         f = young_interp(premod)
         tag3, val3, _ = plain(lambda: f.prog(text))
         if (tag, tag3) == ("ok", "ok"):
-            if (val[0], fulldump(val[1])) != (val3[0], fulldump(val3[1])):
-                out["problems"].append(("history", f"{fulldump(val[1])} != fresh {fulldump(val3[1])}"))
+            h1, h3 = (val[0], fulldump(val[1])), (val3[0], fulldump(val3[1]))
+            if h1 != h3:
+                out["problems"].append(("module-object-address" if same_up_to_address(h1, h3) else "history",
+                                        f"{h1[1]} != fresh {h3[1]}"))
         elif "deep" not in (tag, tag3) and tag != tag3:
             out["problems"].append(("history", f"{tag} vs fresh {tag3}"))
         # ---- evaluation of the first and of the re-parsed program
@@ -720,7 +729,7 @@ def _cases(ctx):
             for kind, txt in single_edits(toks, rng, all_inserts=li in full):
                 if fresh(txt, None):
                     yield ("edit1:" + kind, txt, None, rng.random() < 0.1)
-        for _ in range(200_000):
+        for _ in range(100_000):
             toks = tokens(rng.choice(lines))
             txt = "".join(random_edit(random_edit(toks, rng), rng))
             pm = "m" if rng.random() < 0.05 else None
@@ -740,6 +749,7 @@ def _report(ctx, group, a):
             "repeat": "parsing the same text again in the same module gives a different program",
             "history": "a fresh interpreter in the same module parses the text differently",
             "eval": "the re-parsed program evaluates differently",
+            "module-object-address": "two parses differ only in a memory address inside a module-qualified symbol name",
             "setup": "setting the module through .module(...) failed",
         }.get(key, key)
         ctx.oracle_fail("parse:" + key, case, "property holds", detail[:600], what)
@@ -757,7 +767,7 @@ def run(ctx):
     ctx.rule = ("every string over a 38-character token alphabet up to length 2 (quick) / 3 (thorough); the short strings "
                 "again inside a module; token-level edits (delete, insert, swap, truncate) of the unique lines of every "
                 ".kg file of the repository: a seeded sample of single and double edits (quick) / every delete, truncate, "
-                "swap and one seeded insert per position, every pool insert for 3000 lines, 200k double edits (thorough); "
+                "swap and one seeded insert per position, every pool insert for 500 lines, 100k double edits (thorough); "
                 "a fixed set of long generated strings. distinct = distinct (text, module); non-trivial = length >= 2")
     ctx.assumptions += [
         "Python's recursion limit is not modelled: RecursionError counts as an error after bounded work and is excluded from the model comparison",
